@@ -680,7 +680,7 @@ CAMPAIGNS['C09'].append(
          'threaded build mostly *reuses* cached subtrees while other threads '
          'look at the files in them: complete single-preemption sweep of '
          'that build', mode='sched-sweep', nontrivial=nt_threads, chunk=3,
-         post='tag_all:C09', weight=0.8,
+         post='tag_all:C09', weight=1.6,
          sweep_max={'quick': 16, 'thorough': None}))
 RACE_RULE = ('a key (build_file path / subbuild name+arguments) performed '
              'directly by one thread while another thread reuses or '
